@@ -47,7 +47,9 @@ func malformedChild(args []string) {
 	out := fl.String("out", "", "")
 	repo := fl.String("repo", "/repo", "")
 	memMB := fl.Int("mem", 4096, "")
+	hangMs := fl.Int("hangms", 5000, "")
 	fl.Parse(args)
+	mfHangWait = time.Duration(*hangMs) * time.Millisecond
 	mfRepo = *repo
 	if *memMB > 0 {
 		lim := syscall.Rlimit{Cur: uint64(*memMB) << 20, Max: uint64(*memMB) << 20}
@@ -99,7 +101,7 @@ func malformedChild(args []string) {
 			}
 		}
 		if hung {
-			ln = mfLine{K: j.K, C: j.C, Format: j.Fmt, Mode: j.Mode, Seed: j.Seed, Evs: []mfEvent{{"Hang", "no return within 5s, twice"}}, Res: "hang"}
+			ln = mfLine{K: j.K, C: j.C, Format: j.Fmt, Mode: j.Mode, Seed: j.Seed, Evs: []mfEvent{{"Hang", fmt.Sprintf("no return within %v, twice", mfHangWait)}}, Res: "hang"}
 			emit(ln)
 			f.Close()
 			os.Exit(4)
